@@ -129,6 +129,9 @@ func runC07(w *World) {
 		w.harnessErr("clients did not finish")
 	}
 	hc.finish(nil)
+	if !w.failed() {
+		lockPrimCheck(w, "C07")
+	}
 	// a live fence connection is a client too: the 'set' notifications it received are, in the
 	// order received, a subsequence of the SETs of its collection in the log - each log entry
 	// reported at most once, none out of order
